@@ -136,6 +136,44 @@ def _driver(p):
     return src
 
 
+def copy_probes():
+    """automatic objects initialised from an expression of struct/union type (6.7.9p13), alone and as an element of a
+    braced list (where the expression initialises the whole member instead of being brace-elided into it)"""
+    from cref import LONG
+    pre = ("union CU { int i; long l; char c[8]; };\nstruct CP { long x; int y; };\n"
+           "struct CW { int k; union CU u; int z; };\nstruct CO { int k; struct CP p; int z; };\n")
+    TRUE = z3.BoolVal(True)
+    ident = lambda a: (a, TRUE)
+    const = lambda n: (lambda a: (z3.BitVecVal(n, 64), TRUE))
+    shapes = [
+        ("union/whole", "union CU v; v.l = a; union CU u = v; return u.l;", ident),
+        ("union/in-struct-list", "union CU v; v.l = a; struct CW w = { 1, v, 3 }; return w.u.l;", ident),
+        ("union/in-struct-list-rest", "union CU v; v.l = a; struct CW w = { 1, v, 3 }; return w.k * 10 + w.z;", const(13)),
+        ("union/designated", "union CU v; v.l = a; struct CW w = { .u = v, 4 }; return w.u.l;", ident),
+        ("union/designated-rest", "union CU v; v.l = a; struct CW w = { .u = v, 4 }; return w.k * 10 + w.z;", const(4)),
+        ("union/array-elements", "union CU v; v.l = a; union CU r[2] = { v, v }; return r[1].l;", ident),
+        ("union/array-elements-0", "union CU v; v.l = a; union CU r[2] = { v }; return r[0].l + r[1].l;", ident),
+        ("struct/whole", "struct CP s = { a, 5 }; struct CP t = s; return t.x;", ident),
+        ("struct/whole-2", "struct CP s = { a, 5 }; struct CP t = s; return t.y;", const(5)),
+        ("struct/in-struct-list", "struct CP s = { a, 5 }; struct CO o = { 1, s, 3 }; return o.p.x;", ident),
+        ("struct/in-struct-list-rest", "struct CP s = { a, 5 }; struct CO o = { 1, s, 3 }; return o.k * 100 + o.p.y * 10 + o.z;", const(153)),
+        ("struct/designated", "struct CP s = { a, 5 }; struct CO o = { .p = s, 7 }; return o.p.x;", ident),
+        ("struct/designated-rest", "struct CP s = { a, 5 }; struct CO o = { .p = s, 7 }; return o.k * 100 + o.p.y * 10 + o.z;", const(57)),
+        ("struct/array-elements", "struct CP s = { a, 5 }; struct CP r[3] = { s, { 1, 2 }, s }; return r[2].x;", ident),
+        ("struct/from-call", "struct CP s = { a, 5 }; struct CW w = { 2, cu_ret_%s(a), 9 }; return w.u.l;", ident),
+    ]
+    P = []
+    for k, (key, body, ref) in enumerate(shapes):
+        fn = "cp%d" % k
+        p2 = pre
+        if "cu_ret_%s" in body:
+            p2 += "static union CU cu_ret_%s(long a) { union CU v; v.l = a; return v; }\n" % fn
+            body = body % fn
+        P.append(e2.ScalarProbe("init/copy/" + key, fn, LONG, [LONG], body, ref, family="init", pre=p2, max_visits=16))
+        P[-1].inline = "*"
+    return P
+
+
 def run(chk, tier):
     import multiprocessing as mp
     seed = chk.seed
@@ -156,6 +194,7 @@ def run(chk, tier):
     for r, p in zip(results, probes):
         if r["status"] == "skipped":
             skipped += 1
+            chk.extra.setdefault("init_skipped_examples", []).append("%s: %s" % (p.itext[:80], r["detail"][:100]))
             continue
         rp = chk.write_replay(r["key"], r["replay"], ext=".sh") if r["replay"] and r["status"] in ("violated", "mismatch") else None
         # keys carry the spelling so that a known finding can name the specific input
@@ -168,4 +207,8 @@ def run(chk, tier):
     chk.bounds.append("initializers (E2): %d generated (type, spelling) pairs over 16 object types (nested structs, arrays, unions, bit-fields, char arrays, arrays of unknown bound) "
                       "with designators, brace elision, strings, short lists, trailing commas; every scalar leaf of the static AND the automatic object read back; "
                       "of these %d are the systematic family {D = v, v, v} / {v, D = v, v} for every designator chain D (depth <= 4) into every type" % (len(probes), nsys))
+    cp = copy_probes()
+    e2.run_probes(chk, cp, chunk=4)
+    chk.bounds.append("initializers (E2): %d shapes of automatic objects initialised from an expression of struct/union type with a symbolic payload "
+                      "(whole object, element of a braced list, designated member, array elements, call result)" % len(cp))
     chk.functions.update(["parse.c:initializer2 & co. (via emitted code/data)", "parse.c:write_gvar_data", "parse.c:create_lvar_init", "codegen.c:emit_data", "codegen.c:ND_MEMZERO"])
